@@ -1,0 +1,76 @@
+//go:build verif
+// +build verif
+
+package argmapper
+
+import (
+	"reflect"
+
+	"github.com/hashicorp/go-argmapper/internal/graph"
+)
+
+// This file is only compiled with the "verif" build tag. It lets an external
+// verification harness observe the resolver (hook points) and drive the
+// internal graph package (type aliases).
+
+// VerifGraph and friends re-export internal/graph for the harness.
+type VerifGraph = graph.Graph
+type VerifTopoOrder = graph.TopoOrder
+type VerifVertex = graph.Vertex
+type VerifDFSFunc = graph.DFSFunc
+
+var VerifVertexID = graph.VertexID
+var VerifVertexName = graph.VertexName
+
+// VerifVertexInfo describes one of the resolver's vertices to the harness.
+type VerifVertexInfo struct {
+	Kind     string // "root", "value", "arg", "out", "func", "other"
+	Name     string
+	Type     reflect.Type
+	Subtype  string
+	HasValue bool
+	Func     *Func
+}
+
+// VerifDescribe classifies a resolver vertex.
+func VerifDescribe(v graph.Vertex) VerifVertexInfo {
+	switch v := v.(type) {
+	case *rootVertex:
+		return VerifVertexInfo{Kind: "root"}
+	case *valueVertex:
+		return VerifVertexInfo{Kind: "value", Name: v.Name, Type: v.Type, Subtype: v.Subtype, HasValue: v.Value.IsValid()}
+	case *typedArgVertex:
+		return VerifVertexInfo{Kind: "arg", Type: v.Type, Subtype: v.Subtype, HasValue: v.Value.IsValid()}
+	case *typedOutputVertex:
+		return VerifVertexInfo{Kind: "out", Type: v.Type, Subtype: v.Subtype, HasValue: v.Value.IsValid()}
+	case *funcVertex:
+		return VerifVertexInfo{Kind: "func", Func: v.Func}
+	}
+	return VerifVertexInfo{Kind: "other"}
+}
+
+var verifPointHook func(point string, f *Func)
+
+var verifGraphHook func(point string, g, aux *graph.Graph, a, b graph.Vertex, edgeTo map[interface{}]graph.Vertex)
+
+// VerifSetPointHook registers the callback invoked at named points of the
+// resolver. It must be set before any concurrent use of the library.
+func VerifSetPointHook(h func(point string, f *Func)) { verifPointHook = h }
+
+// VerifSetGraphHook registers the callback invoked with the resolver's live
+// graphs. It must be set before any concurrent use of the library.
+func VerifSetGraphHook(h func(point string, g, aux *VerifGraph, a, b VerifVertex, edgeTo map[interface{}]VerifVertex)) {
+	verifGraphHook = h
+}
+
+func verifPoint(p string, f *Func) {
+	if h := verifPointHook; h != nil {
+		h(p, f)
+	}
+}
+
+func verifGraph(p string, g, aux *graph.Graph, a, b graph.Vertex, edgeTo map[interface{}]graph.Vertex) {
+	if h := verifGraphHook; h != nil {
+		h(p, g, aux, a, b, edgeTo)
+	}
+}
